@@ -37,6 +37,22 @@ def main():
         return a + 1j * rng.standard_normal(s) if cplx else a
 
     cases = []
+    if json.loads(sys.argv[1]).get("part") == "scale":
+        # operators whose norm is at or below the default tolerance: the factorisation must be the scaled one of the same operator at scale 1
+        B = rnd(6, 6)
+        v = rnd(6)
+        Q1, H1, _ = Ar.arnoldi(Dense(B), v, max_iters=3)
+        Q1, H1 = np.asarray(Q1.to_dense()), np.asarray(H1.to_dense())
+        for scale in (1e-6, 1e-8, 1e-10):
+            Q, H, _ = Ar.arnoldi(Dense(B * scale), v, max_iters=3)
+            Q, H = np.asarray(Q.to_dense()), np.asarray(H.to_dense())
+            dev = np.abs(Q.conj().T @ Q - np.eye(Q.shape[1])).max()
+            rel = np.abs(B * scale @ Q[:, :H.shape[1]] - Q @ H).max() / scale
+            if Q.shape != Q1.shape or dev > 1e-6 or rel > 1e-6:
+                found(clause="scale invariance", input=f"arnoldi({scale:g} * gaussian 6x6, v, max_iters=3) with the default tol=1e-7, seed 15",
+                      observed=f"|Q^H Q - I| = {dev:.2e}, |A Q - Q H| / scale = {rel:.2e}, column norms {np.round(np.linalg.norm(Q, axis=0), 4).tolist()}", expected="orthonormal Q, A Q[:, :m] = Q H (as at scale 1)")
+        print(json.dumps(dict(replayed=True, failing_input_found=False, cases=3)))
+        return
     w = json.loads(sys.argv[1])
     sizes = (1, 2, 3, 7, 16, 30) + ((50,) if w.get("tier") == "thorough" else ())
     for n in sizes:
